@@ -599,6 +599,10 @@ func (a *Array) PopIterate(fn ArrayPopIterationFunc) error {
 		inlined:   inlined,
 	}
 
+	// All elements are removed, so there is no mutable element to track.
+	// Stale entries would make subsequent Insert/Append fail in incrementIndexFrom().
+	a.mutableElementIndex = nil
+
 	// Save root slab
 	if !a.Inlined() {
 		err = storeSlab(a.Storage, a.root)
